@@ -13,6 +13,7 @@ import (
 	"strconv"
 	"strings"
 	"sync"
+	"syscall"
 	"sync/atomic"
 	"testing"
 	"time"
@@ -36,6 +37,20 @@ type recWriter struct {
 	// failed counts the Write calls that returned an error, accepted the bytes those calls took all the same
 	failed   int
 	accepted int
+	// werr is what a failing Write returns (errWriter if nil): which error a writer fails with is its own business,
+	// "the underlying write fails" is any of them
+	werr error
+}
+
+// writerErrors: what failing writers return in the wild, besides an error of their own.
+var writerErrors = []error{nil, nil, syscall.EPIPE, io.ErrClosedPipe, &os.PathError{Op: "write", Path: "|1", Err: syscall.EPIPE},
+	io.ErrShortWrite, io.EOF, context.Canceled, os.ErrClosed, syscall.ENOSPC, syscall.EAGAIN}
+
+func (w *recWriter) failure() error {
+	if w.werr != nil {
+		return w.werr
+	}
+	return errWriter
 }
 
 var errWriter = errors.New("injected writer failure")
@@ -58,7 +73,7 @@ func (w *recWriter) Write(p []byte) (int, error) {
 	w.mu.Unlock()
 	switch mode {
 	case "fail":
-		return 0, errWriter
+		return 0, w.failure()
 	case "short-nil":
 		k := len(p) / 2
 		w.append(p[:k])
@@ -69,7 +84,7 @@ func (w *recWriter) Write(p []byte) (int, error) {
 		w.mu.Lock()
 		w.accepted += k
 		w.mu.Unlock()
-		return k, errWriter
+		return k, w.failure()
 	}
 	h := len(p) / 2
 	w.append(p[:h])
@@ -129,6 +144,7 @@ func TestC13(t *testing.T) {
 	c13FileSink(run, r)
 	c13Channel(run, r)
 	c13ChannelQueued(run, r)
+	c13ChannelHistory(run, r)
 	c13WriterRaw(run, r)
 	c13FileFaults(run, r)
 	c13PartialWrites(run, r)
@@ -143,12 +159,12 @@ func c13Writer(run *rt.Run, r *rt.Rand) {
 		configured := rt.Pick(cr, []string{"", "", "json", "cloudevents-json", "text"})
 		mode := rt.Pick(cr, []string{"ok", "ok", "ok", "fail", "short-nil", "short-err", "nil-writer", "fail-once", "short-err-once"})
 		conc := cr.Range(1, 16)
-		w := &recWriter{mode: mode}
+		w := &recWriter{mode: mode, werr: rt.Pick(cr, writerErrors)}
 		sink := &writer.Sink{Format: configured}
 		if mode != "nil-writer" {
 			sink.Writer = w
 		}
-		run.Progress("C13 writer %d format=%q mode=%s conc=%d", i, configured, mode, conc)
+		run.Progress("C13 writer %d format=%q mode=%s (failing with %v) conc=%d", i, configured, mode, w.failure(), conc)
 		type call struct {
 			id      string
 			rec     []byte
@@ -832,5 +848,118 @@ func c13WriterRaw(run *rt.Run, r *rt.Rand) {
 		case !bytes.Equal(ev.Formatted["json"], wantA) || !bytes.Equal(ev.Formatted["text"], wantB):
 			run.Violation("history-pattern:content", "a sink changed the bytes stored in the event's format table", wit)
 		}
+	}
+}
+
+// c13ChannelHistory: the bound of a call is its own also over a history of calls on one sink. A first call times out
+// (no room, nobody receiving); later calls find the channel still without room, their context is live, and a
+// consumer starts receiving well within the timeout. "Reports an error once its timeout elapsed or the context is
+// done": an error of such a call that comes back before the timeout has elapsed is premature. The elapsed time is
+// measured around the call on the monotonic clock, so it can only overstate how long the sink waited: a loaded
+// machine makes the check miss, never fire.
+func c13ChannelHistory(run *rt.Run, r *rt.Rand) {
+	n := run.N(24, 600)
+	const timeout = 60 * time.Millisecond
+	for i := 0; i < n && !run.Stop(); i++ {
+		cr := r.Fork()
+		capn := rt.Pick(cr, []int{0, 1, 2})
+		nfirst := cr.Range(1, 2)
+		nlater := cr.Range(1, 3)
+		drainAfter := time.Duration(cr.Range(1, 8)) * time.Millisecond
+		ch := make(chan *eventlogger.Event, capn)
+		sink, err := channel.NewChannelSink(ch, timeout)
+		if err != nil {
+			panic(err)
+		}
+		run.Progress("C13 channel history %d cap=%d first=%d later=%d drain-after=%v", i, capn, nfirst, nlater, drainAfter)
+		ctx := context.Background()
+		received := map[*eventlogger.Event]int{}
+		fill := make([]*eventlogger.Event, capn)
+		for k := range fill {
+			fill[k] = &eventlogger.Event{Type: "t", Payload: fmt.Sprintf("h%d-fill%d", i, k)}
+			if _, err := sink.Process(ctx, fill[k]); err != nil {
+				run.Violation("history-pattern:spurious-error", "ChannelSink failed although the channel had room: "+err.Error(), nil)
+			}
+		}
+		wit := map[string]any{"sink": "ChannelSink", "capacity": capn, "timeout": timeout.String(), "calls_that_timed_out_first": nfirst, "consumer_starts_after": drainAfter.String()}
+		ok := true
+		for k := 0; k < nfirst && ok; k++ {
+			ev := &eventlogger.Event{Type: "t", Payload: fmt.Sprintf("h%d-first%d", i, k)}
+			t0 := time.Now()
+			_, err := sink.Process(ctx, ev)
+			el := time.Since(t0)
+			switch {
+			case err == nil:
+				run.Violation("history-pattern:success-not-delivered", "ChannelSink reported success while the channel had no room and nobody was receiving", wit)
+				ok = false
+			case el < timeout:
+				run.Violation("history-pattern:error-before-timeout", fmt.Sprintf("ChannelSink reported %q after %v with a live context: its timeout (%v) had not elapsed", err, el, timeout), wit)
+				ok = false
+			}
+		}
+		if !ok {
+			continue
+		}
+		type res struct {
+			ev  *eventlogger.Event
+			err error
+			el  time.Duration
+		}
+		out := make([]res, nlater)
+		var wg sync.WaitGroup
+		for k := 0; k < nlater; k++ {
+			wg.Add(1)
+			go func(k int) {
+				defer wg.Done()
+				ev := &eventlogger.Event{Type: "t", Payload: fmt.Sprintf("h%d-later%d", i, k)}
+				t0 := time.Now()
+				_, err := sink.Process(ctx, ev)
+				out[k] = res{ev, err, time.Since(t0)}
+			}(k)
+		}
+		time.Sleep(drainAfter)
+		stop := make(chan struct{})
+		var dwg sync.WaitGroup
+		dwg.Add(1)
+		go func() {
+			defer dwg.Done()
+			for {
+				select {
+				case e := <-ch:
+					received[e]++
+				case <-stop:
+					for {
+						select {
+						case e := <-ch:
+							received[e]++
+						default:
+							return
+						}
+					}
+				}
+			}
+		}()
+		wg.Wait()
+		close(stop)
+		dwg.Wait()
+		premature, delivered := 0, 0
+		for _, o := range out {
+			got := received[o.ev]
+			switch {
+			case o.err == nil && got != 1:
+				run.Violation("history-pattern:success-not-delivered", fmt.Sprintf("ChannelSink reported success but the event was received %d times", got), wit)
+			case o.err != nil && got != 0:
+				run.Violation("history-pattern:error-but-delivered", fmt.Sprintf("ChannelSink reported an error (%v) but the event was received %d times", o.err, got), wit)
+			case o.err != nil && o.el < timeout:
+				premature++
+				run.Violation("history-pattern:error-before-timeout", fmt.Sprintf("after an earlier call on the sink had timed out, a call with a live context got %q after %v: its own timeout (%v) had not elapsed, and a consumer began receiving %v after the call", o.err, o.el, timeout, drainAfter), wit)
+			}
+			if o.err == nil {
+				delivered++
+			}
+		}
+		run.Add("channel_history_later_calls", nlater)
+		run.Add("channel_history_later_delivered", delivered)
+		run.Eval(fmt.Sprintf("ch-hist|%d|%d|%d|%v", capn, nfirst, nlater, drainAfter))
 	}
 }
